@@ -296,6 +296,85 @@ DeepCase(i) ==
              inherit |-> FALSE, part |-> "", doc |-> [d |-> "sub"], out |-> inner, sub |-> <<fb>>]
   IN CaseJ("deep", "typed", DocYaml(i.doc) /\ i.shape # "sp0", <<fd>>, <<inner>>)
 
+\* --------------------------------------------------------------- family: shapes
+\* The container-shape dimension: one member whose type is a word over S / M / P (see
+\* UnmarshalContract!ShapeAllowed) with one or two container levels and an optional pointer before
+\* each container and before the element:  []k  *[]k  []*k  map[string]k ... [][]k  map[string][]k
+\* []*[]k  map[string]*[]k  []map[string]k  *[]*map[string]*k ...  (40 words x element kinds).
+\* Documents: the canonical well-typed tree of the word with ONE node replaced.  The replaced node
+\* sits at any depth (the member itself, an element of the outer container, an element of the inner
+\* one, the leaf); on the way down every container holds the path alone, the path followed by a
+\* well-typed sibling, or a well-typed sibling followed by the path.  The replacement is drawn from
+\* one catalogue whatever is expected at that place: a scalar / bool / string / null literal of
+\* LitIdx, [] {} [g] {"kx":g} [[g]] [{"kx":g}] {"kx":[g]} {"kx":{"kx":g}} [g,[g]] (g = a well-typed
+\* element) - so lists where scalars are expected, scalars / objects where lists are expected, the
+\* well-typed variants (empty, one deeper) and ill-typed leaves all come from the same product, and
+\* ShapeAllowed decides which is which.  Plus the absent member (required | optional).
+\* Each document is offered (constant OptIds) as
+\*   "tree"  structure in a typed document,
+\*   "jstr"  its JSON text as a string member of a typed document,
+\*   "text"  its JSON text as form / path / header value.
+\* Kinds2 selects the number of container levels ("c1", "c2") so that runs can be partitioned.
+GoodLit(k) == CASE k \in NumKinds -> Lits[4] [] k = "bool" -> Lits[47] [] k = "string" -> Lits[49] [] OTHER -> Lits[56]
+ShapeWords == {w \in UNION {[1..n -> Ctors] : n \in 1..5} :
+                 /\ Containers(w) \in 1..2
+                 /\ \A i \in 1..(Len(w) - 1) : ~(w[i] = "P" /\ w[i + 1] = "P")}
+RECURSIVE CanonTree(_, _)
+CanonTree(rt, k) ==
+  IF rt = <<>> THEN Leaf(GoodLit(k))
+  ELSE IF Head(rt) = "P" THEN CanonTree(Tail(rt), k)
+  ELSE IF Head(rt) = "S" THEN Arr(<<CanonTree(Tail(rt), k)>>) ELSE Obj(<<CanonTree(Tail(rt), k)>>)
+Positions == {"only", "first", "last"}
+PosSeqs(n) == UNION {[1..d -> Positions] : d \in 0..n}
+RECURSIVE Plant(_, _, _, _)
+Plant(rt, k, poss, sub) ==
+  IF poss = <<>> THEN sub
+  ELSE IF Head(rt) = "P" THEN Plant(Tail(rt), k, poss, sub)
+  ELSE LET child == Plant(Tail(rt), k, Tail(poss), sub)
+           sib == CanonTree(Tail(rt), k)
+           items == CASE Head(poss) = "only" -> <<child>> [] Head(poss) = "first" -> <<child, sib>> [] OTHER -> <<sib, child>>
+       IN IF Head(rt) = "S" THEN Arr(items) ELSE Obj(items)
+Subs(k) ==
+  LET g == Leaf(GoodLit(k))
+  IN {Leaf(Lits[i]) : i \in {j \in LitIdx : Lits[j].class \notin {"array", "object"}}}
+     \cup {Arr(<<>>), Obj(<<>>), Arr(<<g>>), Obj(<<g>>), Arr(<<Arr(<<g>>)>>), Arr(<<Obj(<<g>>)>>),
+           Obj(<<Arr(<<g>>)>>), Obj(<<Obj(<<g>>)>>), Arr(<<g, Arr(<<g>>)>>)}
+ShapeDocs(ty, k) == {Plant(ty, k, p, s) : p \in PosSeqs(Containers(ty)), s \in Subs(k)}
+
+ShapesInit ==
+  \E ty \in ShapeWords, k \in Kinds, fm \in OptIds \cap {"tree", "jstr", "text"} :
+     /\ (IF Containers(ty) = 1 THEN "c1" ELSE "c2") \in Kinds2
+     /\ LET src == IF fm = "text" THEN "text" ELSE "typed"
+            form == IF fm = "tree" THEN "tree" ELSE "text"
+        IN \/ \E node \in ShapeDocs(ty, k) :
+                inp = [family |-> "shapes", src |-> src, form |-> form, ty |-> ty, k |-> k, optional |-> FALSE,
+                       present |-> TRUE, node |-> node]
+           \/ \E optional \in BOOLEAN :
+                inp = [family |-> "shapes", src |-> src, form |-> form, ty |-> ty, k |-> k, optional |-> optional,
+                       present |-> FALSE, node |-> Leaf(NoLit)]
+
+RECURSIVE NodeJ(_)
+NodeJ(nd) ==
+  IF nd.n = "leaf" THEN [n |-> "leaf", text |-> nd.lit.text, class |-> nd.lit.class, items |-> <<>>]
+  ELSE [n |-> nd.n, text |-> "", class |-> "", items |-> [j \in 1..Len(nd.items) |-> NodeJ(nd.items[j])]]
+
+ShapesOut(i) ==
+  IF i.present THEN ShapeAllowedFrom(i.ty, i.k, i.node, i.src, i.form)
+  ELSE IF i.optional THEN Must(Zero) ELSE Either(Zero)       \* as for the flat containers (ContOut)
+\* (the outcome is bound through a one-element set so that TLC evaluates the recursive relation once)
+ShapesCaseOf(i, a) ==
+  LET out == [err |-> a.err, ok |-> a.ok /\ ~a.any, any |-> a.any, val |-> a.val, alt |-> NoVal, why |-> a.why]
+      o == IF i.optional THEN Opts(TRUE, "", {}, NoRange, FALSE, "") ELSE Plain
+      \* the text of a tree is an opaque string for YAML; a structured null is not the same content there
+      yaml == i.form = "text" \/ ~i.present \/ AllYaml(i.node)
+  IN CaseJ("shapes", i.src, yaml,
+           <<[name |-> Names["a"], shape |-> "tree", kind |-> i.k, ptr |-> FALSE, opts |-> OptsJ(o),
+              inherit |-> FALSE, part |-> "", ty |-> [j \in 1..Len(i.ty) |-> i.ty[j]],
+              doc |-> [d |-> IF i.present THEN "tree" ELSE "absent", form |-> i.form, node |-> NodeJ(i.node)],
+              out |-> out, sub |-> <<>>]>>,
+           <<out>>)
+ShapesCase(i) == CHOOSE c \in {ShapesCaseOf(i, a) : a \in {ShapesOut(i)}} : TRUE
+
 \* --------------------------------------------------------------- family: roundtrip / rtopt / rtcons
 \* one member per request part; the value of each member is named by a literal that fits its kind.
 \* Allowed = UnmarshalContract!RoundTripAllowed: the struct comes back equal (error tolerated only
@@ -385,6 +464,7 @@ Init ==
     [] Family = "rtopt" -> RTInit("rtopt", "optdef")
     [] Family = "rtcons" -> RTConsInit
     [] Family = "deep" -> DeepInit
+    [] Family = "shapes" -> ShapesInit
     [] Family = "axioms" -> inp = [family |-> "axioms"]
     [] Family = "twice" -> TwiceInit
     [] Family = "history" -> HistInit
@@ -399,6 +479,7 @@ CaseOf(i) ==
     [] i.family \in {"nested", "inherit"} -> NestCase(i)
     [] i.family \in {"roundtrip", "rtopt", "rtcons"} -> RTCase(i)
     [] i.family = "deep" -> DeepCase(i)
+    [] i.family = "shapes" -> ShapesCase(i)
     [] i.family = "axioms" -> AxiomsCase
     [] i.family = "twice" -> ContCase(i)
     [] i.family = "history" -> HistCase(i)
@@ -431,6 +512,16 @@ Sane ==
         IN /\ (s.mustErr <=> (IsMustErr(a1) \/ IsMustErr(a2)))
            /\ (s.mustErr => ~s.ok /\ ~s.any /\ s.err)
            /\ (s.err \/ s.ok \/ s.any)
+  \* container shapes: the theorems of the tree relation; the canonical tree is well-formed; the
+  \* literals taken as "a well-typed element" are what the catalogue says they are
+  /\ inp.family = "shapes" =>
+        /\ Lits[4].text = "5" /\ Lits[47].text = "true" /\ Lits[49].text = "abc" /\ Lits[56].text = "10s"
+        /\ \A canon \in {CanonTree(inp.ty, inp.k)} :
+              /\ Structural(inp.ty, canon)
+              /\ \A c \in {ShapeAllowed(inp.ty, inp.k, canon)} : c.ok /\ ~c.any /\ (c.err => inp.k = "duration")
+        /\ \A a \in {ShapesOut(inp)} :
+              /\ T_NonEmpty(a)
+              /\ inp.present => \A b \in {ShapeAllowed(inp.ty, inp.k, inp.node)} : T_Shape(inp.ty, inp.node, a, b, inp.form)
   \* a round trip never needs a wrapped value: every generated request value fits its field
   /\ inp.family \in {"roundtrip", "rtopt", "rtcons"} =>
         /\ Fits(Lits[inp.lp], inp.kp) /\ Fits(Lits[inp.lf], inp.kf)
